@@ -19,6 +19,30 @@ use std::sync::Arc;
 
 pub type State = ShardedActorState<SimulatedTimeSource>;
 
+/// does the tree under test keep ONE script cache for all shards?  (observed; part of `S` lines)
+static SHARED_SCRIPT_CACHE: std::sync::atomic::AtomicBool = std::sync::atomic::AtomicBool::new(true);
+/// SHA1 of the harness' scripts, obtained from a throw-away instance (never loaded into the
+/// instances under test behind their back)
+static SCRIPT_SHAS: std::sync::OnceLock<Vec<String>> = std::sync::OnceLock::new();
+
+/// SHA1 of the plain `GET` script of the E…/ES… ops, from a throw-away instance
+pub static GET_SCRIPT_SHA: std::sync::OnceLock<String> = std::sync::OnceLock::new();
+pub const GET_SCRIPT: &str = "return redis.pcall('GET', KEYS[1])";
+
+pub async fn init_get_script_sha() {
+    let helper = new_state(1);
+    if let RespValue::BulkString(Some(x)) = helper.execute(&Command::ScriptLoad(GET_SCRIPT.to_string())).await {
+        let _ = GET_SCRIPT_SHA.set(String::from_utf8_lossy(&x).to_string());
+    }
+}
+
+pub fn script_text(i: u64) -> String {
+    format!("return redis.pcall('GET', KEYS[1]) -- script {}", i)
+}
+fn script_sha(i: u64) -> String {
+    SCRIPT_SHAS.get().and_then(|v| v.get(i as usize).cloned()).unwrap_or_default()
+}
+
 /// replica of `hash_key(&str, n)` of the pinned tree (`str::hash`: bytes then 0xff)
 pub fn h_str(k: &str, n: usize) -> usize {
     let mut h = DefaultHasher::new();
@@ -85,7 +109,7 @@ impl Op {
     pub fn line(&self) -> String {
         let hk = |i: usize| hex(&self.keys[i]);
         match self.name {
-            "GET" | "STRLEN" | "INCR" | "GETDEL" | "TYPE" | "LPOP" | "RPOP" | "LLEN" | "LRANGE" | "FGET" | "PGET" | "EGET" | "ESGET"
+            "GET" | "STRLEN" | "INCR" | "GETDEL" | "TYPE" | "LPOP" | "RPOP" | "LLEN" | "LRANGE" | "FGET" | "PGET" | "EGET" | "ESGET" | "XSGET"
             | "EINCR" | "ESINCR" => {
                 format!("{} {}", self.name, hk(0))
             }
@@ -126,6 +150,16 @@ impl Op {
                 self.count.map(|c| c.to_string()).unwrap_or("-".into())
             ),
             "DBSIZE" | "FLUSH" | "RANDOMKEY" => self.name.to_string(),
+            "SLOAD" | "SEXISTS" | "SFLUSH" | "SEVAL" | "SEVALSHA" => {
+                let f = SHARED_SCRIPT_CACHE.load(std::sync::atomic::Ordering::Relaxed) as u8;
+                match self.name {
+                    "SFLUSH" => format!("S {} FLUSH", f),
+                    "SLOAD" => format!("S {} LOAD {}", f, self.cursor),
+                    "SEXISTS" => format!("S {} EXISTS {}", f, self.cursor),
+                    "SEVAL" => format!("S {} EVAL {} {}", f, self.cursor, hk(0)),
+                    _ => format!("S {} EVALSHA {} {}", f, self.cursor, hk(0)),
+                }
+            }
             x => panic!("op {}", x),
         }
     }
@@ -150,6 +184,8 @@ fn err_code(e: &str) -> String {
         "e:3".into()
     } else if e.starts_with("ERR no such key") {
         "e:4".into()
+    } else if e.starts_with("NOSCRIPT") {
+        "e:5".into()
     } else {
         format!("e:?{}", e.replace(' ', "_"))
     }
@@ -214,6 +250,11 @@ pub async fn apply(st: &State, op: &Op) -> String {
         "STRLEN" => r1(&st.execute(&Command::StrLen(k0())).await),
         "INCR" => r1(&st.execute(&Command::Incr(k0())).await),
         // the same single-key commands as Lua scripts, through EVAL and through SCRIPT LOAD + EVALSHA
+        // EVALSHA of the GET script WITHOUT loading it here: it must be known node-wide because some
+        // earlier EVAL (EGET, on whatever shard) introduced it
+        "XSGET" => r1(&st
+            .execute(&Command::EvalSha { sha1: GET_SCRIPT_SHA.get().cloned().unwrap_or_default(), keys: vec![k0()], args: vec![] })
+            .await),
         "EGET" | "ESGET" | "ESET" | "ESSET" | "EINCR" | "ESINCR" => {
             let script = match op.name {
                 "EGET" | "ESGET" => "return redis.pcall('GET', KEYS[1])",
@@ -266,6 +307,17 @@ pub async fn apply(st: &State, op: &Op) -> String {
             },
             o => r1(&o),
         },
+        "SLOAD" => match st.execute(&Command::ScriptLoad(script_text(op.cursor))).await {
+            RespValue::BulkString(Some(x)) if x.len() == 40 => "ok".into(),
+            o => r1(&o),
+        },
+        "SEXISTS" => match st.execute(&Command::ScriptExists(vec![script_sha(op.cursor)])).await {
+            RespValue::Array(Some(v)) if v.len() == 1 => r1(&v[0]),
+            o => r1(&o),
+        },
+        "SFLUSH" => r1(&st.execute(&Command::ScriptFlush).await),
+        "SEVAL" => r1(&st.execute(&Command::Eval { script: script_text(op.cursor), keys: vec![k0()], args: vec![] }).await),
+        "SEVALSHA" => r1(&st.execute(&Command::EvalSha { sha1: script_sha(op.cursor), keys: vec![k0()], args: vec![] }).await),
         "DBSIZE" => r1(&st.execute(&Command::DbSize).await),
         "FLUSH" => r1(&st.execute(&Command::FlushDb).await),
         "SCAN" => {
@@ -521,6 +573,87 @@ pub fn key_class(k: &[u8]) -> &'static str {
     special_keys().into_iter().find(|(_, x)| x == k).map(|(c, _)| c).unwrap_or("plain")
 }
 
+fn sop(name: &'static str, i: u64, k: Option<&[u8]>) -> Op {
+    let mut o = Op::new(name, k.map(|x| vec![x.to_vec()]).unwrap_or_default(), vec![]);
+    o.cursor = i;
+    o
+}
+
+/// Node-global state that is not the keyspace: the script cache.  Scripts are introduced through
+/// one shard (EVAL on a key of that shard, or SCRIPT LOAD via shard 0) and used through another
+/// (EVALSHA on a key with a different home; SCRIPT EXISTS / FLUSH via shard 0).
+fn scripts_case(ctx: &Ctx, rng: &mut Rng, corpus: bool) -> Case {
+    let n = if corpus { 4 } else { *rng.pick(&[2usize, 4, 8, 16]) };
+    let p = pool();
+    // keys on pairwise different shards first
+    let mut keys: Vec<Vec<u8>> = Vec::new();
+    for k in &p {
+        if keys.iter().all(|x| ctx.gen(x, n) != ctx.gen(k, n)) {
+            keys.push(k.clone());
+        }
+        if keys.len() >= 4 {
+            break;
+        }
+    }
+    keys.push(p[7].clone());
+    let mut ops = Vec::new();
+    if corpus {
+        // the seed's session: EVAL on one shard, EVALSHA on another; EXISTS / FLUSH through shard 0
+        ops.push(Op::kv("SET", &keys[1], b"v1"));
+        ops.push(sop("SEVAL", 0, Some(&keys[0])));
+        ops.push(sop("SEVALSHA", 0, Some(&keys[1])));
+        ops.push(sop("SEXISTS", 0, None));
+        ops.push(sop("SEVAL", 1, Some(&keys[1])));
+        ops.push(sop("SEXISTS", 1, None));
+        ops.push(sop("SEVALSHA", 1, Some(&keys[0])));
+        ops.push(sop("SLOAD", 2, None));
+        ops.push(sop("SEVALSHA", 2, Some(&keys[2 % keys.len()])));
+        ops.push(sop("SFLUSH", 0, None));
+        ops.push(sop("SEVALSHA", 0, Some(&keys[0])));
+        ops.push(sop("SEVALSHA", 1, Some(&keys[1])));
+        ops.push(sop("SEXISTS", 2, None));
+        ops.push(sop("SEVALSHA", 3, Some(&keys[0])));
+    } else {
+        for _ in 0..rng.range(8, 30) {
+            let k = keys[rng.below(keys.len() as u64) as usize].clone();
+            let i = rng.below(4);
+            ops.push(match rng.below(12) {
+                0 | 1 => sop("SEVAL", i, Some(&k)),
+                2 | 3 | 4 => sop("SEVALSHA", i, Some(&k)),
+                5 => sop("SLOAD", i, None),
+                6 | 7 => sop("SEXISTS", i, None),
+                8 => sop("SFLUSH", 0, None),
+                9 => Op::kv("SET", &k, &val(rng)),
+                10 => Op::kv("FSET", &k, &val(rng)),
+                _ => Op::nullary("DBSIZE"),
+            });
+        }
+    }
+    Case { n, class: "scripts-global", ops }
+}
+
+/// is the script cache shared by all shards?  EVAL on a key of one shard, EVALSHA on a key of another
+async fn detect_script_cache(ctx: &Ctx) {
+    let helper = new_state(1);
+    let mut shas = Vec::new();
+    for i in 0..8u64 {
+        shas.push(match helper.execute(&Command::ScriptLoad(script_text(i))).await {
+            RespValue::BulkString(Some(x)) => String::from_utf8_lossy(&x).to_string(),
+            _ => String::new(),
+        });
+    }
+    let _ = SCRIPT_SHAS.set(shas);
+    let n = 4;
+    let st = new_state(n);
+    let p = pool();
+    let a = p[0].clone();
+    let other = p.iter().find(|k| ctx.gen(k, n) != ctx.gen(&a, n)).unwrap().clone();
+    st.execute(&Command::Eval { script: script_text(7), keys: vec![s(&a)], args: vec![] }).await;
+    let r = st.execute(&Command::EvalSha { sha1: script_sha(7), keys: vec![s(&other)], args: vec![] }).await;
+    let shared = !matches!(&r, RespValue::Error(e) if e.starts_with("NOSCRIPT"));
+    SHARED_SCRIPT_CACHE.store(shared, std::sync::atomic::Ordering::Relaxed);
+}
+
 fn val(rng: &mut Rng) -> Vec<u8> {
     match rng.below(12) {
         0 => vec![],
@@ -746,6 +879,8 @@ fn corpus(ctx: &Ctx) -> Vec<Case> {
     }
     // KEYS patterns of every shape (classes, ranges, negation, unterminated, literal only)
     cs.push(keys_case(&mut Rng::new(0xC03), true));
+    // the script cache: introduced through one shard, used through another
+    cs.push(scripts_case(ctx, &mut Rng::new(0xC03), true));
     // RANDOMKEY looked at shard 0 only before fix 4d9bd05: one key that does not live there
     let k = p.iter().find(|k| ctx.gen(k, 4) != 0).unwrap();
     cs.push(Case {
@@ -944,6 +1079,7 @@ fn listed_cause(case: &Case, c: &Ctx) -> Option<String> {
                 None
             }
         }
+        "scripts-global" if !SHARED_SCRIPT_CACHE.load(std::sync::atomic::Ordering::Relaxed) => Some("C03:script-cache-per-shard".into()),
         "multi-key:MSETNX" => {
             if case.ops.iter().any(|o| o.name == "MSETNX" && o.keys.iter().any(|k| c.gen(k, n) != c.gen(&o.keys[0], n))) {
                 Some("C03:multi-key:MSETNX".into())
@@ -1397,6 +1533,8 @@ pub fn run(a: &Args) {
     rt.block_on(async {
         let ctx = detect_routing(&mut out).await;
         out.extra.insert("hash_key_delegates_to_hash_key_bytes".into(), json!(ctx.fixed));
+        detect_script_cache(&ctx).await;
+        out.extra.insert("script_cache_shared_by_all_shards".into(), json!(SHARED_SCRIPT_CACHE.load(std::sync::atomic::Ordering::Relaxed)));
         for c in corpus(&ctx) {
             run_case(&mut out, &mut pend, &ctx, &c).await;
         }
@@ -1422,7 +1560,13 @@ pub fn run(a: &Args) {
         }
         for _ in 0..a.n {
             let mut r = rng.fork();
-            let c = if r.chance(1, 7) { keys_case(&mut r, false) } else { random_case(&ctx, &mut r) };
+            let c = if r.chance(1, 7) {
+                keys_case(&mut r, false)
+            } else if r.chance(1, 12) {
+                scripts_case(&ctx, &mut r, false)
+            } else {
+                random_case(&ctx, &mut r)
+            };
             run_case(&mut out, &mut pend, &ctx, &c).await;
             if r.chance(1, 6) {
                 if r.chance(1, 2) {
